@@ -92,10 +92,11 @@ impl Model for U256 {
         format!("(u {:x})", self)
     }
     fn gen(r: &mut Rng, _size: usize) -> Self {
-        match r.below(4) {
+        match r.below(6) {
             0 => U256::ZERO,
             1 => U256::MAX,
             2 => U256::from(r.uint(128)),
+            3 | 4 => U256::from_limbs(r.limbs4()),
             _ => {
                 let b = r.bytes(32);
                 U256::from_le_slice(&b)
@@ -495,7 +496,13 @@ impl_tuple!((0, A), (1, B), (2, C), (3, D), (4, E), (5, F), (6, G), (7, H), (8, 
 impl_tuple!((0, A), (1, B), (2, C), (3, D), (4, E), (5, F), (6, G), (7, H), (8, I), (9, J), (10, K), (11, L));
 
 pub fn bits_model<I: Iterator<Item = bool>>(it: I) -> String {
-    let s: String = it.map(|b| if b { '1' } else { '0' }).collect();
+    // a value that claims more bits than any input of this harness can back (only a defect makes one)
+    // is not walked: its length alone is the observation
+    const WALK: usize = 1 << 22;
+    let s: String = it.take(WALK + 1).map(|b| if b { '1' } else { '0' }).collect();
+    if s.len() > WALK {
+        return "(bits-huge)".into();
+    }
     if s.is_empty() {
         "(bits)".into()
     } else {
